@@ -251,6 +251,13 @@ def registry(I):
         add('transform.to_mef', c + '/curves', (lambda c=c: (lambda a: FlowCal.transform.to_mef(a['s'], a['ch'], a['sc'], a['scch']),
                                                            {'s': conts[c](), 'ch': [2], 'sc': [lambda x: 2.0 * x, lambda x: x + 1.0],
                                                             'scch': [2, 1]})))
+        # channels counted from the last one (negative positions), in the caller's own lists
+        add('transform.to_mef', c + '/curves/negative-positions',
+            (lambda c=c: (lambda a: FlowCal.transform.to_mef(a['s'], a['ch'], a['sc'], a['scch']),
+                          {'s': conts[c](), 'ch': [-1], 'sc': [lambda x: 2.0 * x, lambda x: x + 1.0], 'scch': [-1, -2]})))
+        add('transform.to_rfi', c + '/negative-positions',
+            (lambda c=c: (lambda a: FlowCal.transform.to_rfi(a['s'], a['ch'], a['at'], a['ag'], a['res']),
+                          {'s': conts[c](), 'ch': [-1, -3], 'at': [(4.0, 1.0), (0.0, 0.0)], 'ag': [None, 2.0], 'res': [1024, 1024]})))
         add('transform.transform', c + '/fxn', (lambda c=c: (lambda a: FlowCal.transform.transform(a['s'], a['ch'], a['f']),
                                                            {'s': conts[c](), 'ch': [1, 2], 'f': lambda x: np.asarray(x) * 2.0})))
     add('transform.to_rfi', 'raw/defaults', lambda: (lambda a: FlowCal.transform.to_rfi(a['s']), {'s': I.raw()}))
